@@ -110,6 +110,8 @@ type pkgInfo struct {
 	methods map[string][]string // method name -> owning types
 	imports map[*ast.File]map[string]string
 	types   map[string]*ast.StructType
+	aliases map[string]string // var m = &other
+	objects []string          // package-level singleton objects (&T{...} or constructor call)
 }
 
 var fset = token.NewFileSet()
@@ -201,7 +203,8 @@ func load() {
 		}
 		if len(files) > 0 {
 			pi := &pkgInfo{name: pname, dir: rel, files: files, vars: map[string]string{}, funcs: map[string]*funcInfo{},
-				methods: map[string][]string{}, imports: map[*ast.File]map[string]string{}, types: map[string]*ast.StructType{}}
+				methods: map[string][]string{}, imports: map[*ast.File]map[string]string{}, types: map[string]*ast.StructType{},
+				aliases: map[string]string{}}
 			key := rel
 			if rel == "." {
 				key = "risor"
@@ -264,6 +267,27 @@ func collectDecls() {
 									ts = typeString(sp.Values[i])
 								}
 								p.vars[n.Name] = lockKind(ts)
+								if p.vars[n.Name] == "plain" && i < len(sp.Values) {
+									switch v := sp.Values[i].(type) {
+									case *ast.UnaryExpr:
+										if _, ok := v.X.(*ast.CompositeLit); ok && v.Op == token.AND {
+											p.objects = append(p.objects, n.Name)
+										}
+									case *ast.CallExpr:
+										if _, isConv := v.Fun.(*ast.ParenExpr); !isConv {
+											if id, ok := v.Fun.(*ast.Ident); !ok || (id.Name != "make" && id.Name != "new") {
+												p.objects = append(p.objects, n.Name)
+											}
+										}
+									}
+								}
+								if i < len(sp.Values) {
+									if ue, ok := sp.Values[i].(*ast.UnaryExpr); ok && ue.Op == token.AND {
+										if id, ok := ue.X.(*ast.Ident); ok {
+											p.aliases[n.Name] = id.Name
+										}
+									}
+								}
 							}
 						case *ast.TypeSpec:
 							if st, ok := sp.Type.(*ast.StructType); ok {
@@ -288,6 +312,17 @@ func collectDecls() {
 					}
 					p.funcs[name] = fi
 				}
+			}
+		}
+	}
+}
+
+// a package-level pointer to a package-level lock is that lock
+func resolveAliases() {
+	for _, p := range pkgs {
+		for a, target := range p.aliases {
+			if p.vars[target] == "lock" {
+				p.vars[a] = "lockalias"
 			}
 		}
 	}
@@ -362,6 +397,8 @@ func (w *walker) lockOf(e ast.Expr) string {
 		if !w.isLocal(x.Name) {
 			if k, ok := w.p.vars[x.Name]; ok && k == "lock" {
 				return w.p.label() + "." + x.Name
+			} else if ok && k == "lockalias" {
+				return w.p.label() + "." + w.p.aliases[x.Name]
 			}
 		}
 	case *ast.SelectorExpr:
@@ -1128,6 +1165,7 @@ func codeMutators() (mutators []string, calls []string) {
 }
 
 type output struct {
+	Objects          []string `json:"package_level_objects"`
 	CodeMutators     []string `json:"compiler_mutating_methods"`
 	RuntimeMutations []string `json:"runtime_calls_of_code_mutators"`
 	Locks     []string          `json:"locks"`
@@ -1144,6 +1182,7 @@ type output struct {
 func build() *output {
 	load()
 	collectDecls()
+	resolveAliases()
 	writes := map[string]bool{}
 	walkAll(1, writes)
 	markValues()
@@ -1153,8 +1192,12 @@ func build() *output {
 	lockSet := map[string]bool{}
 	locSet := map[string]bool{}
 	for _, p := range pkgs {
+		for _, o := range p.objects {
+			out.Objects = append(out.Objects, p.label()+"."+o)
+		}
 		for v, k := range p.vars {
 			switch k {
+			case "lockalias":
 			case "lock":
 				lockSet[p.label()+"."+v] = true
 			case "sync":
@@ -1203,6 +1246,7 @@ func build() *output {
 	sort.Strings(out.Locks)
 	sort.Strings(out.Locs)
 	sort.Strings(out.Synced)
+	sort.Strings(out.Objects)
 	sort.Slice(out.Sites, func(i, j int) bool {
 		a, b := out.Sites[i], out.Sites[j]
 		if a.Loc != b.Loc {
